@@ -64,6 +64,68 @@ class Wire(Harness):
         yield 'lists-field-by-field', s_and(*conds)
 
 
+def utf8_len(r):
+    """number of bytes of the UTF-8 form of a (symbolic) str"""
+    n = 0
+    for i in range(len(r)):
+        c = zx.shims.z_ord(r[i])
+        n = n + zx.s_ite(c < 0x80, 1, zx.s_ite(c < 0x800, 2, zx.s_ite(c < 0x10000, 3, 4)))
+    return n
+
+
+class WireBytes(Harness):
+    """a name-list whose middle name is n ARBITRARY bytes (not necessarily UTF-8; no comma): the parser still returns three names, the neighbours intact; a
+    valid UTF-8 name comes back as its decoding, and an invalid one is never shortened (no byte silently dropped: the reported name's UTF-8 form is at least
+    as long as the advertised bytes, which holds for U+FFFD replacement and for every escaping scheme, and fails when offending bytes are discarded)."""
+    prop, ob = PROP, 'O1'
+    width = 64
+
+    def __init__(self, field, n):
+        self.field, self.n = field, n
+        self.name = 'wirebytes-f%d-n%d' % (field, n)
+
+    def params(self):
+        return {'field': self.field, 'n': self.n}
+
+    def inputs(self):
+        b = zx.fresh_bytes('nm', self.n)
+        if zx.active():
+            for i in range(self.n):
+                zx.cur().assume(b[i] != 0x2C)
+        return {'b': b}
+
+    def run(self, M, inp):
+        def nl(names):
+            out = b''
+            for i, x in enumerate(names):
+                out = out + (b',' if i else b'') + x
+            return AE.u32(len(out)) + out
+        p = b'\x00' * 16
+        for i in range(10):
+            p = p + (nl([b'aa', inp['b'], b'bb']) if i == self.field else nl([b'x']))
+        p = p + b'\x00' + AE.u32(0)
+        out = M.outputbuffer.OutputBuffer()
+        k = guarded(M.ssh2_kex.SSH2_Kex.parse, out, p)
+        if isinstance(k, Exc):
+            return {'exc': k}
+        return {'back': [k.kex_algorithms, k.key_algorithms, k.client.encryption, k.server.encryption, k.client.mac, k.server.mac][self.field]}
+
+    def check(self, inp, obs):
+        if 'exc' in obs:
+            yield 'no-exception', False
+            return
+        got = obs['back']
+        yield 'three-names-neighbours-intact', len(got) == 3 and bool(got[0] == 'aa') and bool(got[2] == 'bb')
+        if len(got) != 3:
+            return
+        r = got[1]
+        dec = guarded(inp['b'].decode, 'utf-8') if not isinstance(inp['b'], bytes) else guarded(inp['b'].decode, 'utf-8')
+        if isinstance(dec, Exc):
+            yield 'invalid-utf8-name-is-not-shortened', utf8_len(r) >= self.n
+        else:
+            yield 'valid-utf8-name-decoded-exactly', r == dec
+
+
 class Text(Harness):
     """real output(): per category the '(cat) ' lines name exactly the advertised non-empty names in order; compression/banner as sent."""
     prop, ob = PROP, 'O2'
@@ -176,6 +238,43 @@ class Json(Harness):
         return label
 
 
+class ClientDirections(Harness):
+    """client audit of a KEXINIT whose client-to-server and server-to-client cipher/MAC lists differ (legal, unusual): the text report and the JSON report
+    show the SAME advertised list per category, and that list is one of the two the peer sent (which direction is reported is the tool's convention)."""
+    prop, ob = PROP, 'O5'
+    width = 64
+
+    def __init__(self, n_s2c, n_c2s, batch=False):
+        self.n_s2c, self.n_c2s, self.batch = n_s2c, n_c2s, batch
+        self.name = 'clientdirections-%d-%d%s' % (n_s2c, n_c2s, '-b' if batch else '')
+
+    def params(self):
+        return {'n_s2c': self.n_s2c, 'n_c2s': self.n_c2s, 'batch': self.batch}
+
+    def inputs(self):
+        return {'s2c': {c: mk_list('s' + c, (1,) * self.n_s2c) for c in ('enc', 'mac')}, 'c2s': {c: mk_list('c' + c, (1,) * self.n_c2s) for c in ('enc', 'mac')}}
+
+    def run(self, M, inp):
+        L = {'kex': ['curve25519-sha256'], 'key': ['ssh-ed25519'], 'enc': list(inp['s2c']['enc']), 'mac': list(inp['s2c']['mac']), 'comp': ['none']}
+        c2s = {'enc': list(inp['c2s']['enc']), 'mac': list(inp['c2s']['mac']), 'comp': ['none']}
+        t = OL.run_output(M, L, client=True, batch=self.batch, c2s=c2s)
+        j = OL.run_output(M, L, client=True, json=True, c2s=c2s)
+        for r in (t, j):
+            if isinstance(r['ret'], Exc):
+                return {'exc': r['ret']}
+        heads = OL.first_lines_per_cat(t['lines'])
+        return {'text': {c: heads[c] for c in ('enc', 'mac')}, 'json': {c: [e['algorithm'] for e in j['doc'][c]] for c in ('enc', 'mac')}}
+
+    def check(self, inp, obs):
+        if 'exc' in obs:
+            yield 'no-exception', False
+            return
+        for c in ('enc', 'mac'):
+            yield 'text-and-json-list-the-same-names', OL.s_list_eq(obs['text'][c], obs['json'][c])
+            yield 'reported-list-is-one-the-peer-sent', s_or(OL.s_list_eq(obs['text'][c], inp['s2c'][c]), OL.s_list_eq(obs['text'][c], inp['c2s'][c]))
+            yield 'json-list-is-one-the-peer-sent', s_or(OL.s_list_eq(obs['json'][c], inp['s2c'][c]), OL.s_list_eq(obs['json'][c], inp['c2s'][c]))
+
+
 class Ssh1(Harness):
     """SSH-1: cipher/authentication masks decode to exactly the names of the set bits; text and JSON show them."""
     prop, ob = PROP, 'O4'
@@ -244,6 +343,8 @@ def tasks(tier):
             s[i] = ()
             T.append(Wire(s))
     T.append(Wire([('gss-group1-sha1-', 2), (1,), (1,), (1,), (1,), (1,), (1,), (1,), (), ()]))
+    for f, n in ((0, 1), (1, 2), (3, 2), (5, 1)) if q else ((0, 1), (0, 2), (0, 3), (1, 2), (2, 2), (3, 2), (3, 3), (4, 1), (5, 2)):
+        T.append(WireBytes(f, n))
     k = KNOWN
     shapes = [
         {'kex': (1,), 'key': (1,), 'enc': (1,), 'mac': (1,)},
@@ -264,6 +365,9 @@ def tasks(tier):
     for comp in [(), ('none',), (1,), ('none', 1), (1, 'zlib@openssh.com')]:
         T.append(Text(shapes[0], False, comp=comp))
         T.append(Json(shapes[0], False, comp=comp))
+    for a, b in ((1, 1), (1, 2), (2, 1)) if q else ((1, 1), (1, 2), (2, 1), (2, 2), (3, 1)):
+        T.append(ClientDirections(a, b))
+    T.append(ClientDirections(1, 1, batch=True))
     T.append(Ssh1('decode', 'ciphers'))
     T.append(Ssh1('decode', 'auths'))
     for v in ('text', 'json'):
@@ -281,6 +385,10 @@ def harness_by_name(name, params):
         return Text(p['shape'], p['client'], p['verbose'], p['batch'], p['comp'])
     if k == 'json':
         return Json(p['shape'], p['client'], p['comp'])
+    if k == 'wirebytes':
+        return WireBytes(p['field'], p['n'])
+    if k == 'clientdirections':
+        return ClientDirections(p['n_s2c'], p['n_c2s'], p.get('batch', False))
     if k == 'ssh1':
         return Ssh1(p['view'], p.get('which', 'both'))
     raise KeyError(name)
